@@ -301,6 +301,7 @@ func registerNumeric(sp *numericSpec) {
 
 func init() {
 	g1 := DefaultGen
+	g1.LongNames = true // paths around the 4 KiB / 64 KiB buffer boundaries of the listing readers
 	registerNumeric(&numericSpec{prop: "C01", fields: CensusFields, gen: g1,
 		inv: InvOpts{RefOpts: true, Roots: true, Regexps: true, CwdKinds: []string{"top", "top", "subdir", "elsewhere"}, Progress: true},
 		nontrivial: func(w *World, ex *Expected, sel *Selection) bool {
